@@ -27,6 +27,18 @@ CLAIMED['C11'] = dict(
   note='Trusted: struct format semantics of the checker interpreter; the induction len(x.encode()) == len(x) for aggregated sub-PDUs; '
        'field domains RW 0..15, MIU 128..2175, SAP 0..63. Known findings (TLV/sub-PDU window, unbounded AGF nesting) are listed in known_findings.json.',
   technique='symbolic length + writer/reader table agreement + CFG bound analysis (ast)')
+CLAIMED['C05'] = dict(
+  category='other',
+  text='Decides the structural clauses that make the window/sequence mechanism of a data link connection sound on every path: the I-PDU '
+       'creation, N(S) assignment and V(S) increment sit behind the window-wait loop and the ESTABLISHED test; EMSGSIZE guards dominate PDU '
+       'creation; a received I PDU is handed over and V(R) incremented only if N(S)==V(R) and the size test passed (path-sensitive CFG '
+       'reachability); all sequence arithmetic is modulo 16 and the window-slot formulas equal the LLCP definition on all 4096 inputs; '
+       'sequence state is written under the socket lock; waits re-test in a loop; queues are FIFO. Order/exactly-once over all '
+       'interleavings is a schedule-quantified trace property and is not decided by this family.',
+  design_ref='DESIGN.md section 3 C05',
+  note='Trusted: Condition(self.lock) aliasing, with-statement semantics, constructor results are truthy (flag refinement). '
+       'Does not explore thread schedules or histories.',
+  technique='CFG dominance / path-sensitive reachability + lock sets + finite evaluation of extracted arithmetic (ast)')
 NA_REASON = {}
 def main():
     checks = []
